@@ -42,6 +42,21 @@ CLAIMS = {
         "note": TB + " Not decided: termination of the barrier's value-level logic; scheduler fairness.",
         "technique": "static analysis: lock-order graph, poison-tolerance idiom classification, loop/leaf rules over the call graph",
     },
+    "C02": {
+        "text": "Static CFG/dataflow rules on the dispatcher and the mutators: exactly one read guard per delivery (all paths, no loop), lookup keyed by "
+                "the handler's own signal argument, one forward B-tree iteration of the looked-up slot calling each yielded action once, ids = next_id "
+                "(+1 only, on the clone) = B-tree key order, copy-on-write publish by value with swap as the only pointer write and no DerefMut on guards.",
+        "note": TB + " Not decided: the linearizability statement (which registrations a concurrent delivery must see).",
+        "technique": "static analysis: exactly-once path rules, def-use provenance of keys/iterators, who-writes inventory over MIR",
+    },
+    "C04": {
+        "text": "Static order/provenance rules: chained call exactly once, outside loops, dominating every action; the dispatcher's own three arguments; "
+                "one-/three-argument convention control-dependent on SA_SIGINFO clear/set (edge-labelled branch facts) and guarded by fptr not in {0,DFL,IGN}; "
+                "fallback stored before the installing sigaction and never published before it; fallback guard before data guard; fallback chain "
+                "only on lookup miss and prev.signal == sig. The suite never executes this code at all.",
+        "note": TB + " Not decided: atomicity w.r.t. foreign sigaction callers (documented race).",
+        "technique": "static analysis: dominance, control-dependence facts on switch edges, argument provenance over MIR",
+    },
 }
 
 PENDING = "check under construction in this round (rules designed in DESIGN.md §4); not claimed until the rule set runs clean"
